@@ -5,6 +5,8 @@ package c19
 import (
 	"fmt"
 	"runtime"
+	"strconv"
+	"strings"
 	"sync"
 
 	"pgregory.net/rapid"
@@ -33,7 +35,7 @@ type Case struct {
 	Partial int     `json:"partial,omitempty"` // single samples appended to the shared buffer before the goroutines start (a partial last frame), < C
 }
 
-var Types = []string{"int8", "uint16", "int32", "int64", "float32", "float64"}
+var Types = []string{"int8", "uint16", "int32", "int64", "float32", "float64", "NInt16", "NFloat32"}
 
 const (
 	nReadOps  = 11
@@ -48,6 +50,39 @@ func partner(t string) string {
 	return "float64"
 }
 
+// The reader results are rendered without package fmt: fmt recycles its printers through a
+// sync.Pool, which orders the goroutines that share one and would hide unordered accesses of
+// the library from the race detector.
+func sVals(vs []kit.Val) string {
+	var b strings.Builder
+	b.WriteByte('[')
+	for i, v := range vs {
+		if i > 0 {
+			b.WriteByte(' ')
+		}
+		b.WriteString(v.String())
+	}
+	b.WriteByte(']')
+	return b.String()
+}
+
+func sRows(rows [][]kit.Val) string {
+	var b strings.Builder
+	for _, r := range rows {
+		b.WriteString(sVals(r))
+	}
+	return b.String()
+}
+
+func sHdr(h kit.Hdr) string {
+	var b strings.Builder
+	for _, x := range []int{h.Len, h.Cap, h.Length, h.Capacity, h.Channels, h.BitDepth} {
+		b.WriteString(strconv.Itoa(x))
+		b.WriteByte('/')
+	}
+	return b.String()
+}
+
 // readStep runs read-only operation `code` as reader r at step k and returns a
 // printable result.
 func readStep(c *Case, shared kit.AnyBuf, code, r, k int) string {
@@ -60,13 +95,13 @@ func readStep(c *Case, shared kit.AnyBuf, code, r, k int) string {
 		i := (r*7 + k*3) % (C * c.RO)
 		return shared.Get(i).String()
 	case 1: // size methods of the shared header
-		return fmt.Sprint(shared.Hdr())
+		return sHdr(shared.Hdr())
 	case 2:
-		return fmt.Sprint(shared.BufferIndex(k%C, k%(c.F+1)))
+		return strconv.Itoa(shared.BufferIndex(k%C, k%(c.F+1)))
 	case 3: // interleaved read of the read-only range through a fresh slice
 		v := shared.Slice(0, c.RO)
 		out, n := v.ReadVals(C*c.RO + 1)
-		return fmt.Sprint(out, n)
+		return sVals(out) + " " + strconv.Itoa(n)
 	case 4: // striped read
 		v := shared.Slice(0, c.RO)
 		lens := make([]int, C)
@@ -77,23 +112,23 @@ func readStep(c *Case, shared kit.AnyBuf, code, r, k int) string {
 			}
 		}
 		out, n := v.ReadStripedVals(lens)
-		return fmt.Sprint(out, n)
+		return sRows(out) + " " + strconv.Itoa(n)
 	case 5: // slicing the shared header anywhere, also into its spare capacity (no data access)
 		a := k % (c.F + 1)
 		v := shared.Slice(a, c.F+(k+r)%(spareFrames(c)+1))
-		return fmt.Sprint(v.Hdr())
+		return sHdr(v.Hdr())
 	case 6: // channel view reads
 		if c.RO == 0 {
 			return "-"
 		}
 		ch := shared.Channel((r + k) % C)
-		return fmt.Sprint(ch.Sample(k%c.RO), ch.Length(), ch.Capacity(), ch.Channels())
+		return ch.Sample(k%c.RO).String() + " " + strconv.Itoa(ch.Length()) + " " + strconv.Itoa(ch.Capacity()) + " " + strconv.Itoa(ch.Channels())
 	case 7: // conversion source into a private destination
 		v := shared.Slice(0, c.RO)
 		e := convtab.Lookup(c.T, partner(c.T))
 		dst := kit.AllocAny(partner(c.T), signal.Allocator{Channels: C, Length: c.RO, Capacity: c.RO})
 		n := e.Convert(v, dst)
-		return fmt.Sprint(dst.Snap(), n)
+		return sVals(dst.Snap()) + " " + strconv.Itoa(n)
 	case 8: // nested slice + sample
 		if c.RO == 0 {
 			return "-"
@@ -109,10 +144,10 @@ func readStep(c *Case, shared kit.AnyBuf, code, r, k int) string {
 			lens[i] = kit.Max(c.RO-(i+k)%2, 0)
 		}
 		out, n := shared.ReadStripedVals(lens)
-		return fmt.Sprint(out, n)
+		return sRows(out) + " " + strconv.Itoa(n)
 	default: // short interleaved read straight from the shared header (only read-only positions are touched)
 		out, n := shared.ReadVals(kit.Min(c.C*c.RO, 1+k%5))
-		return fmt.Sprint(out, n)
+		return sVals(out) + " " + strconv.Itoa(n)
 	}
 }
 
@@ -177,7 +212,7 @@ func valid(c *Case) bool {
 	}
 	prev := c.RO
 	for i, b := range c.Bounds {
-		if (i == 0 && b != c.RO) || b < prev || b > c.F {
+		if (i == 0 && b != c.RO) || b < prev || b > c.F+spareFrames(c) { // writer windows may reach into the spare capacity
 			return false
 		}
 		prev = b
@@ -228,7 +263,8 @@ func Check(c *Case) (res kit.Result) {
 			writeStep(c, ref, code, w, k)
 		}
 	}
-	wantFinal := ref.Snap()
+	capFrames := c.F + spareFrames(c)
+	wantFinal := ref.Slice(0, capFrames).Snap() // the whole capacity, not only the length
 	refHdr := ref.Hdr()
 
 	prev := runtime.GOMAXPROCS(c.Procs)
@@ -295,7 +331,7 @@ func Check(c *Case) (res kit.Result) {
 				}
 			}
 		}
-		if d := kit.DiffVals("shared buffer after the concurrent run vs the sequential run", shared.Snap(), wantFinal); d != "" {
+		if d := kit.DiffVals("shared buffer (whole capacity) after the concurrent run vs the sequential run", shared.Slice(0, capFrames).Snap(), wantFinal); d != "" {
 			res.Failf("run %d: %s", rep+1, d)
 			return
 		}
@@ -353,7 +389,21 @@ func Gen(t *rapid.T) *Case {
 	c.Bounds = []int{c.RO}
 	for w := 0; w < W; w++ {
 		last := c.Bounds[len(c.Bounds)-1]
-		c.Bounds = append(c.Bounds, rapid.IntRange(last, c.F).Draw(t, "bound"))
+		c.Bounds = append(c.Bounds, rapid.IntRange(last, kit.Max(last, c.F)).Draw(t, "bound"))
+	}
+	if W >= 1 && rapid.IntRange(0, 2).Draw(t, "intoSpare") == 0 {
+		// the last writers' windows reach into the spare capacity; a boundary may sit exactly at the
+		// end of the length (frame F, or F+1 when the buffer ends in a partial frame)
+		top := c.F + spareFrames(c)
+		c.Bounds[W] = rapid.IntRange(kit.Max(c.Bounds[W], c.F), top).Draw(t, "spareEnd")
+		if W >= 2 {
+			c.Bounds[W-1] = rapid.IntRange(kit.Max(c.Bounds[W-2], kit.Min(c.F, c.Bounds[W])), c.Bounds[W]).Draw(t, "spareCut")
+			if rapid.Bool().Draw(t, "cutAtLength") {
+				if cut := c.F + 1; cut >= c.Bounds[W-2] && cut <= c.Bounds[W] {
+					c.Bounds[W-1] = cut
+				}
+			}
+		}
 	}
 	steps := rapid.IntRange(1, 40).Draw(t, "steps")
 	for r := 0; r < R; r++ {
